@@ -136,3 +136,15 @@ package prefix
 //@   modifies it.*
 //@   ensures r ==> iter.valid
 //@   ensures iter.valid ==> (it.calls == old(it.calls) + 1 && it.op == 1 && it.recv == iter.iter && r == it.retb)
+
+// C16: a cache wrap of a prefix store - traced or not - is layered on the prefix store ITSELF (so every key still gets the
+// prefix and iteration stays inside it), never on its parent (seed C16f)
+//@ func (s Store) CacheWrap() (r types.CacheWrap)
+//@   props C16
+//@   modifies everything
+//@   ensures [wraps-self] dyntype(r) == typeid("*store/cachekv.Store") && unbox(r, "*store/cachekv.Store").parent == box(s)
+//@
+//@ func (s Store) CacheWrapWithTrace(w io.Writer, tc types.TraceContext) (r types.CacheWrap)
+//@   props C16
+//@   modifies everything
+//@   ensures [wraps-self] dyntype(r) == typeid("*store/cachekv.Store") && dyntype(unbox(r, "*store/cachekv.Store").parent) == typeid("*store/tracekv.Store") && unbox(unbox(r, "*store/cachekv.Store").parent, "*store/tracekv.Store").parent == box(s)
